@@ -33,3 +33,7 @@ impl Iterator for ValueRange {
         }
     }
 }
+
+#[cfg(kani)]
+#[path = "/verif/kani/range.rs"]
+mod kani_verif;
